@@ -430,6 +430,7 @@ def check_leg(schedule, plan, ticks, leg, res: Result):
     max_dt = Fraction(xf(cfg["max_dt_sec"]))
     s_held, c_held = init["state_tok"], init["cov_tok"]
     seen_times = [Fraction(xf(init["time"]))]
+    valid_at = {init["state_tok"]: Fraction(xf(init["time"]))}  # the time each estimate token is valid for (initial time + sum of the dt applied)
     for i, (op, (missing, groups, rd, _held)) in enumerate(zip(schedule["ops"], plan)):
         if isinstance(ticks, dict):
             rec = ticks.get(i)
@@ -492,7 +493,16 @@ def check_leg(schedule, plan, ticks, leg, res: Result):
                 chain_ok = False
                 clause = "held_estimate" if j == 0 else "chain"
                 res.add("C11", clause, f"C11:{leg}:{clause}", i, f"call {j} continues from state/cov tokens {(ps, pc)}", f"got {(sin, cin)}", leg)
+                if j == 0 and c[0] == "P" and sin in valid_at and ok_structure and segs and segs[0]:
+                    # the runtime moves ANOTHER estimate (one it produced earlier, valid for another time): its steps must then
+                    # lead from THAT estimate's time to the target (C10 is about the estimate that is actually moved)
+                    tv, tt = valid_at[sin], Fraction(groups[0][1])
+                    total = sum((Fraction(x[1]) for x in segs[0]), Fraction(0))
+                    if abs(total - (tt - tv)) > SUM_TOL:
+                        res.add("C10", "sum", f"C10:{leg}:sum:moved_estimate_valid_at_another_time", i, f"the estimate being moved is valid for t={float(tv)!r}; steps to {float(tt)!r} sum to {float(tt - tv)!r} within 1e-9", f"sum={float(total)!r} steps={_fmt([x[1] for x in segs[0]])}", leg)
                 break
+            if sin in valid_at:
+                valid_at[sout] = valid_at[sin] + (Fraction(c[1]) if c[0] == "P" else 0)
             ps, pc = sout, cout
             if c[0] == "P" and c[6] != want_ctl:
                 res.add("C11", "control_passed", f"C11:{leg}:control_passed", i, f"control id {want_ctl} in every prediction", f"{c[6]}", leg)
